@@ -179,6 +179,25 @@ CLAIMED.update({
     ),
 })
 
+# sentences appended to the level note (rules added late; kept apart from the long texts above)
+Z = ("Rule %s.z is change detection, not a semantic rule: the %s have the reviewed normal forms (digest table); a changed digest is reported as undecided "
+     "('changed, no rule says whether the property survives'), which also fires on a behaviour-preserving restructuring of such a function (not on renaming, rewording, helper extraction or reordering).")
+EXTRA_NOTE = {
+    "C02": Z % ("C02", "68 compiler functions that build or unify types"),
+    "C03": Z % ("C03", "29 compiler functions that write emitted text"),
+    "C06": Z % ("C06", "41 compiler functions that read a column, move the offside stack or skip line ends"),
+    "C07": Z % ("C07", "49 compiler functions that read or write a scope, the type-definition context or a global dictionary"),
+    "C08": Z % ("C08", "10 compiler functions that touch the operator table or build a binary-operator node"),
+    "C09": Z % ("C09", "13 compiler functions between a match expression and the exhaustiveness diagnostic"),
+    "C15": Z % ("C15", "33 compiler functions that construct or print a type expression"),
+    "C04": "Rule (g) — every file fc reads is a sequence of well-formed top-level items on the checker's own token stream (block comments end at the first */ as in fc's lexer; no stray text in column 0, no stray */, package_info bodies are declaration lines) — and rule (c2) — referenced functions and union cases per definition agree — were added after seeded variants.",
+    "C13": "Correct bodies outside the idioms that a seed or benign variant showed (explicit range guards, slices.IndexFunc/ContainsFunc scans) are listed as accepted alternatives per function.",
+    "C14": "Rule (e): no library type declares String/Error/Format/GoString, so %v of a library value is the default rendering the specification terms assume.",
+}
+for k, extra in EXTRA_NOTE.items():
+    t = CLAIMED[k]
+    CLAIMED[k] = (t[0], t[1], t[2] + " " + extra, t[3])
+
 NOT_APPLICABLE = {
 }
 
